@@ -155,6 +155,12 @@ class DatabaseService(Service, discriminator="database-service"):
             self.sys_log.error("Unable to restore database backup.")
             return False
 
+        # the FTP server reports success as soon as it has sent the file; make sure the copy actually arrived before the
+        # live database file is replaced
+        if self.file_system.get_file(folder_name="downloads", file_name="database.db") is None:
+            self.sys_log.error("Unable to restore database backup: the backup file was not received.")
+            return False
+
         old_visible_state = SoftwareHealthState.GOOD
 
         # get db file regardless of whether or not it was deleted
